@@ -399,7 +399,14 @@ func (s unicodeString) toTrimmedUTF8() string {
 }
 
 func (s unicodeString) ToNumber() Value {
-	return asciiString(s.toTrimmedUTF8()).ToNumber()
+	trimmed := s.toTrimmedUTF8()
+	for i := 0; i < len(trimmed); i++ {
+		if trimmed[i] >= utf8.RuneSelf {
+			// no StringNumericLiteral contains a non-ASCII character (and trimmed is not an asciiString)
+			return _NaN
+		}
+	}
+	return asciiString(trimmed).ToNumber()
 }
 
 func (s unicodeString) ToObject(r *Runtime) *Object {
